@@ -130,6 +130,10 @@ def _binary_programs():
     out.append(("two_reparts_mixed", lambda t: _concat([_rep(t["L"], 2), _rep(t["L"], 6)])[["a"]], False, "repartition"))
     out.append(("two_shifts", lambda t: t["L"].a.shift(1) + t["L"].a.shift(2), False, "overlap"))
     out.append(("two_diffs_frame", lambda t: t["L"][["a", "b"]].diff(1) + t["L"][["a", "b"]].shift(1), False, "overlap"))
+    # an in-place style update whose input partition has a second consumer in the same graph
+    out.append(("assign_overwrite_shared", lambda t: t["L"].assign(a=t["L"].a * 10).sum() - t["L"].sum(), False, "shared"))
+    out.append(("assign_overwrite_concat", lambda t: _concat([t["L"], t["L"].assign(b=t["L"].b + 1)]), False, "shared"))
+    out.append(("fillna_shared", lambda t: t["L"].fillna(0).sum() + t["L"].count(), False, "shared"))
     out.append(("shared_filter_sum", lambda t: (lambda x: x.a.sum() + x.b.sum())(t["L"][t["L"].a > 2]), False, "shared"))
     out.append(("shared_two_consumers", lambda t: (lambda x: x[["a"]].sum() + x[["a"]].count())(t["L"].assign(z=t["L"].a * 2)), False, "shared"))
     return out
